@@ -514,6 +514,76 @@ def run(ctx):
                                                  "process": [t["always"], t["build"]], "predicts": t["predicts"]}
         info[cls]["nullable"] = sorted(w.nullable)
 
+    # ---- histories in one process: an estimator fitted AFTER other estimators (or re-fitted) equals the same estimator in a
+    #      fresh interpreter, bit for bit - state surviving between objects or fits (shared mutable defaults, module-level or
+    #      identity-keyed caches) makes the two differ.  No oracle, no tolerance: harness/freshproc.py runs both in clean processes.
+    from concurrent.futures import ThreadPoolExecutor
+    from harness import freshproc
+    hrng = np.random.default_rng(ctx.seed + 18)
+    U5 = {"__array__": hrng.normal(size=(5, 2)).tolist()}
+    akw = dict(optimizer="adam", n_iter=2, jit=False)
+    D1 = dict(seed=int(hrng.integers(1 << 30)), n=12, d=2)
+    D2 = dict(seed=int(hrng.integers(1 << 30)), n=15, d=2, scale=7.0, shift=1.0)
+    T1 = dict(seed=int(hrng.integers(1 << 30)), n=24, d=2, times=[7, 9, 8])
+    T2 = dict(T1, seed=T1["seed"] + 1, scale=7.0, shift=1.0)
+    q2 = (hrng.normal(size=(4, 2))).tolist()
+    q3 = [r_ + [float(i % 3)] for i, r_ in enumerate(q2)]
+
+    def new(cls_, **kw_):
+        return {"op": "new", "cls": cls_, "kwargs": kw_}
+
+    def mf(steps):
+        return [dict(st, may_fail=True) for st in steps]
+    histories = [
+        ("numerically equal options of different type (rank=1 then rank=1.0), explicit landmarks",
+         mf([new("DensityEstimator", rank={"__int__": 1}, landmarks=U5, **akw), {"op": "fit", "x": D1}]),
+         [new("DensityEstimator", rank=1.0, landmarks=U5, **akw), {"op": "fit", "x": D1}], q2),
+        ("default-constructed time-sensitive estimators with automatic ls_time, second one on rescaled data",
+         [new("TimeSensitiveDensityEstimator", jit=False), {"op": "fit", "x": T1}],
+         [new("TimeSensitiveDensityEstimator", jit=False), {"op": "fit", "x": T2}], q3),
+        ("two density estimators on data sets of different size and scale",
+         [new("DensityEstimator", **akw), {"op": "fit", "x": D1}],
+         [new("DensityEstimator", **akw), {"op": "fit", "x": D2}], q2),
+        ("two dimensionality estimators, second one on rescaled data",
+         [new("DimensionalityEstimator", k=3, **akw), {"op": "fit", "x": D1}],
+         [new("DimensionalityEstimator", k=3, **akw), {"op": "fit", "x": D2}], q2),
+    ]
+    if ctx.thorough:
+        histories += [
+            ("rank=1.0 then rank=1 (integer), explicit landmarks",
+             mf([new("DensityEstimator", rank=1.0, landmarks=U5, **akw), {"op": "fit", "x": D1}]),
+             [new("DensityEstimator", rank={"__int__": 1}, landmarks=U5, **akw), {"op": "fit", "x": D1}], q2),
+            ("the same estimator re-fitted without new data (fit(x), fit())",
+             [new("DensityEstimator", **akw), {"op": "fit", "x": D1}, {"op": "fit", "x": None}],
+             [], q2),
+        ]
+    jobs = []
+    for hi, (what, before, plain, qq) in enumerate(histories):
+        # plain == []: the history is one estimator used repeatedly; its one-shot equivalent is construction + first fit
+        plain_full = plain if plain else before[:2]
+        jobs.append((hi, "hist", {"steps": before + plain, "query": qq}))
+        jobs.append((hi, "plain", {"steps": plain_full, "query": qq}))
+    with ThreadPoolExecutor(max_workers=8) as ex:
+        outs = list(ex.map(lambda j: freshproc.run_spec(j[2], "%d_%s" % (j[0], j[1]), ctx.dir), jobs))
+    hist_runs = 0
+    for hi, (what, before, plain, qq) in enumerate(histories):
+        oh, op_ = outs[2 * hi], outs[2 * hi + 1]
+        hist_runs += 1
+        if not op_.get("ok"):
+            ctx.violation("C18|history|plain-fit-fails|%d" % hi, "a plain one-shot fit fails in a fresh interpreter",
+                          {"history": what, "steps": jobs[2 * hi + 1][2]["steps"], "error": op_.get("error")})
+            continue
+        diff = freshproc.differing(oh, op_)
+        if diff:
+            ctx.violation("C18|history|%s" % what.split(" (")[0].split(",")[0].replace(" ", "-"),
+                          "an estimator used after other estimators / fits in the same process differs from the same estimator in a fresh process",
+                          {"history": what, "steps_with_history": jobs[2 * hi][2]["steps"], "steps_plain": jobs[2 * hi + 1][2]["steps"],
+                           "query": qq, "differing": diff, "outcome_with_history": oh.get("error", "ok"),
+                           "replay": "python /verif/harness/freshproc.py <spec.json> with each of the two step lists; outputs must be identical",
+                           "values_with_history": {k: oh.get("obs", {}).get(k) for k in diff[:4]},
+                           "values_plain": {k: op_["obs"].get(k) for k in diff[:4]}})
+    dist["history pairs (fresh interpreters)"] = hist_runs
+
     # ---- the model's verdict on every sequence, evaluated in Coq
     coq_cases = []
     for (model, _, flags, res, equal, b2), m in zip(cases, meta):
